@@ -134,7 +134,7 @@ pub fn gen_c13(rng: &mut Rng, i: u64, tier: Tier) -> Script {
                 // the earlier stream was corrupt (targeted RFC violation, e.g. table sizes beyond the alphabet)
                 let spec = crate::foreign::ALL_SPECS[rng.usize_below(crate::foreign::ALL_SPECS.len())];
                 if !spec.is_zlib() || zlib {
-                    let cfg = crate::foreign::GenCfg { zlib, target: rng.range(0, 400), spec, max_dist: 32768, edge: 0 };
+                    let cfg = crate::foreign::GenCfg { zlib, target: rng.range(0, 400), spec, max_dist: 32768, edge: 0, alt258: false };
                     pv.bytes = crate::foreign::generate(rng, &cfg).bytes;
                 }
             }
